@@ -25,8 +25,8 @@ package taskpool
 //@   ensures handed: result ==> tp.gOwed == old(tp.gOwed)                                   // prop C19
 //@   ensures kept: !result ==> tp.gOwed == old(tp.gOwed) + 1                                // prop C19
 //@   assigns tp.gOwed, tp.gLastAdd, allocates
-//@   at before:AddInt64#1 assert one: arg_delta == 1                                        // prop C19
-//@   at call:AddInt64#1 ghost { tp.gOwed = tp.gOwed + 1; tp.gLastAdd = result }
+//@   at before:AddInt64#* assert one: arg_delta == 1                                        // prop C19
+//@   at call:AddInt64#* ghost { tp.gOwed = tp.gOwed + 1; tp.gLastAdd = result }
 //@   at before:go#1 assert admit: tp.gLastAdd < tp.maxConcurrent && tp.gOwed >= 1           // prop C19
 //@   at go#1 ghost { tp.gOwed = tp.gOwed - 1 }
 
@@ -38,8 +38,9 @@ package taskpool
 //@   ensures returned: tp.gOwed == 0                                                        // prop C19
 //@   assigns everything, TaskPool.gOwed, TaskPool.gLastAdd
 //@   at entry ghost { tp.gOwed = 1 }
-//@   at before:AddInt64#1 assert minus: arg_delta == -1                                     // prop C19
-//@   at call:AddInt64#1 ghost { tp.gOwed = tp.gOwed - 1 }
+//@   note every add to the counter made by the worker is accounted for (wildcard anchors): it gives back exactly the one unit it was started with
+//@   at before:AddInt64#* assert minus: arg_delta == -1                                     // prop C19
+//@   at call:AddInt64#* ghost { tp.gOwed = tp.gOwed - 1 }
 //@   loop 1
 //@     invariant tp != nil && tp.gOwed == 1
 
@@ -49,8 +50,8 @@ package taskpool
 //@   requires tp.gOwed >= 0
 //@   ensures balanced: tp.gOwed == old(tp.gOwed)                                            // prop C19
 //@   assigns tp.gOwed, tp.gLastAdd, allocates
-//@   at before:AddInt64#1 assert minus: arg_delta == -1                                     // prop C19
-//@   at call:AddInt64#1 ghost { tp.gOwed = tp.gOwed - 1 }
+//@   at before:AddInt64#* assert minus: arg_delta == -1                                     // prop C19
+//@   at call:AddInt64#* ghost { tp.gOwed = tp.gOwed - 1 }
 
 // the dispatcher: owes nothing between two tasks
 //@ func New$2
@@ -59,8 +60,8 @@ package taskpool
 //@   requires tp != nil
 //@   at entry ghost { tp.gOwed = 0 }
 //@   assigns everything, TaskPool.gOwed, TaskPool.gLastAdd
-//@   at before:AddInt64#1 assert minus: arg_delta == -1                                     // prop C19
-//@   at call:AddInt64#1 ghost { tp.gOwed = tp.gOwed - 1 }
+//@   at before:AddInt64#* assert minus: arg_delta == -1                                     // prop C19
+//@   at call:AddInt64#* ghost { tp.gOwed = tp.gOwed - 1 }
 //@   loop 1
 //@     invariant tp != nil && tp.gOwed == 0                            // prop C19
 
